@@ -9,7 +9,8 @@ Read from the LIVE source on every run (inspect.signature for the defaults, ast 
                        the bound of the beat-halving loop (`m_beat_type < N`)
   map_to_track_channel the integers `mode` is compared with, in source order, and the channel given when a mode writes
                        a single channel (`channel[...] = 1`)
-  load_score_midi      default of part_voice_assign_mode
+  load_score_midi      default of part_voice_assign_mode; whether the defaults of quantization_unit,
+                       estimate_voice_info, estimate_key switch those steps on (the model has them off)
   assign_group_part_voice   the integers `mode` is compared with, in source order
   create_part          the time signature assumed when the file has none (`time_sigs = [(0, n, d)]`)
 
@@ -116,6 +117,14 @@ def extract():
     if len(assumed) != 1:
         raise Unexpected("assumed time signature: %r" % (assumed,))
     d["assumedTimeSig"] = assumed[0]
+    # the options of load_score_midi the model leaves at their defaults: no quantization of the ticks, voices from the
+    # mode (no voice estimation), key signatures from the file (no key estimation)
+    d["importQuantizes"] = bool(_default(I.load_score_midi, "quantization_unit"))
+    for k, name in (("importEstimatesVoices", "estimate_voice_info"), ("importEstimatesKey", "estimate_key")):
+        v = _default(I.load_score_midi, name)
+        if not isinstance(v, bool):
+            raise Unexpected("%s default is %r" % (name, v))
+        d[k] = v
     return d
 
 
@@ -129,7 +138,8 @@ def gen_c04sig():
     except Exception as e:  # noqa
         d = {"defaultMode": 0, "defaultVelocity": 0, "defaultAnacrusis": "", "defaultMinimumPpq": 0, "importDefaultMode": 0,
              "anacrusisValues": [], "defaultTempo": 0, "beatTypeLimit": 0, "exportModes": [], "singleChannel": 0,
-             "importModes": [], "assumedTimeSig": (0, 0, 0)}
+             "importModes": [], "assumedTimeSig": (0, 0, 0), "importQuantizes": True, "importEstimatesVoices": True,
+             "importEstimatesKey": True}
         ok, why = False, "%s: %s" % (type(e).__name__, e)
     lines = [
         "/- GENERATED by harness/translate_c04.py from partitura/io/exportmidi.py and partitura/io/importmidi.py - do not edit.",
@@ -166,6 +176,12 @@ def gen_c04sig():
         "def importModes : List Nat := [%s]" % ", ".join("%d" % x for x in d["importModes"]),
         "/-- `create_part`: the time signature assumed when the file has none -/",
         "def assumedTimeSig : Int × Int × Int := (%d, %d, %d)" % tuple(d["assumedTimeSig"]),
+        "/-- `load_score_midi(..., quantization_unit=…)`: the default quantizes the ticks -/",
+        "def importQuantizes : Bool := %s" % ("true" if d["importQuantizes"] else "false"),
+        "/-- `load_score_midi(..., estimate_voice_info=…)` -/",
+        "def importEstimatesVoices : Bool := %s" % ("true" if d["importEstimatesVoices"] else "false"),
+        "/-- `load_score_midi(..., estimate_key=…)`: the default discards the key signatures of the file -/",
+        "def importEstimatesKey : Bool := %s" % ("true" if d["importEstimatesKey"] else "false"),
         "",
         "end Gen.C04Sig",
         "",
